@@ -393,6 +393,20 @@ class NoiseAdversary:
         return y
 
 
+class LatticeNoise:
+    """Dyadic lattice noise: running means of different designs tie and chain exactly."""
+
+    def __init__(self, mu, key, ids=None):
+        self.mu = np.asarray(mu, float)
+        self.key = key
+        self.ids = list(ids) if ids is not None else list(range(len(mu)))
+        self.moves = Counter()
+
+    def observation(self, i: int, n: int) -> np.ndarray:
+        rng = keyed_rng(self.key, 13, self.ids[i], n)
+        return self.mu[i] + rng.choice([-0.5, -0.25, 0.0, 0.0, 0.25, 0.5], size=self.mu.shape[1])
+
+
 def draw_rho(rng, adv) -> float:
     mode = adv.get("rho_mode", "mix")
     byz = adv.get("byzantine", False)
